@@ -8,7 +8,7 @@
    every run); inet_pton/inet_ntop/uuid_parse/uuid_unparse are universally quantified with named
    hypotheses.                                                                                  *)
 From OlaBase Require Import Bytes.
-From C20 Require Import Libc Spec Model Ipv6 ProofsDigits ProofsInt ProofsHex ProofsText ProofsIpv6 ProofsIpv6v4 ProofsExt ProofsPton4 ProofsUuid.
+From C20 Require Import Libc Spec Model Ipv6 ProofsDigits ProofsInt ProofsHex ProofsText ProofsIpv6 ProofsIpv6v4 ProofsExt ProofsPton4 ProofsUuid ProofsIpv6Full.
 From C20 Require Gen.
 Local Open Scope N_scope.
 
@@ -528,6 +528,26 @@ Theorem c20_trim : forall s, exists l r,
 Proof. exact string_trim_spec. Qed.
 Print Assumptions c20_trim.
 
+(* inet_pton(AF_INET6) on the glibc model, accepts => denotes for the FULL form: a text that
+   contains no '.' and no "::" is accepted exactly when it is eight groups of 1-4 hex digits
+   (either case, leading zeros allowed) separated by single colons, and the result is the eight
+   group values; and every such text is accepted (no side condition needed for that direction).   *)
+Theorem c20_ipv6_full_form_exact : forall t ws,
+  (~ In 46 t -> (forall a b, t <> a ++ 58 :: 58 :: b) ->
+   (inet_pton6 t = Some ws <->
+    exists gs, length gs = 8%nat /\
+      Forall (fun g => (1 <= length g <= 4)%nat /\ forallb is_hex_char g = true) gs /\
+      t = join [58] gs /\ ws = map (text_value 16) gs)) /\
+  ((exists gs, length gs = 8%nat /\
+      Forall (fun g => (1 <= length g <= 4)%nat /\ forallb is_hex_char g = true) gs /\
+      t = join [58] gs /\ ws = map (text_value 16) gs) -> inet_pton6 t = Some ws).
+Proof.
+  intros t ws. split.
+  - intros Hdot Hdc. split; [exact (full_form_sound t ws Hdot Hdc)|exact (full_form_complete t ws)].
+  - exact (full_form_complete t ws).
+Qed.
+Print Assumptions c20_ipv6_full_form_exact.
+
 (* ---- non-vacuity ------------------------------------------------------------------------------- *)
 (* the hypotheses on the external functions are jointly satisfiable ... *)
 Example ex_net_hyps_sat :
@@ -604,3 +624,8 @@ Example ex_cid_exact :
   uuid_form (map lower_char (uuid_unparse (repeat 171 16))) (repeat 171 16) /\
   cid_from_string uuid_parse [120] = nil_uuid.
 Proof. split; [apply uuid_parse_exact; vm_compute; reflexivity|vm_compute; reflexivity]. Qed.
+
+Example ex_ipv6_full :
+  inet_pton6 [49; 58; 48; 48; 50; 58; 65; 58; 98; 58; 48; 58; 48; 58; 70; 70; 70; 102; 58; 49; 48] =
+  Some [1; 2; 10; 11; 0; 0; 65535; 16].
+Proof. vm_compute. reflexivity. Qed.
